@@ -259,8 +259,13 @@ func VfSweepScenario() {
 	}
 
 	kept := []mh.Multihash{}
+	// the keys are interchangeable: their placements are explored as multisets
+	// (non-decreasing 2-bit prefixes)
+	prevBits := 0
 	for i := 0; i < M; i++ {
-		kept = append(kept, vfKeyWithBits(vfBitsOf("key.bits", 2), i))
+		v := prevBits + vfChoose("key.bits", 4-prevBits)
+		prevBits = v
+		kept = append(kept, vfKeyWithBits(string([]byte{'0' + byte(v>>1&1), '0' + byte(v&1)}), i))
 	}
 	t0 := past()
 	vfAssert(prov.StartProviding(false, kept...) == nil, "sweep/start-providing")
